@@ -549,6 +549,81 @@ fn gen_large(r: &mut Rng) -> String {
     out
 }
 
+// ---------------------------------------------------------------- G
+/// Counted loops whose body updates accumulators by constants, by loop-constant
+/// cells, by linearly changing cells and by geometrically changing cells: the
+/// shapes for which the optimiser derives closed forms (loop motion).
+fn gen_closed(r: &mut Rng) -> String {
+    let mut out = String::new();
+    let nv = 4 + r.below(3) as i32; // variables 0..nv, temporaries nv..nv+4, counter nv+5
+    let (t0, t1, t2, t3) = (nv, nv + 1, nv + 2, nv + 3);
+    let cnt = nv + 5;
+    let mut cur = 0;
+    for i in 0..nv {
+        go(&mut out, &mut cur, i);
+        if r.chance(4) {
+            rep(&mut out, '+', 1 + r.below(3));
+        } else {
+            out.push(',');
+        }
+    }
+    let nloops = 1 + r.below(2);
+    for _ in 0..nloops {
+        go(&mut out, &mut cur, cnt);
+        if r.chance(3) {
+            rep(&mut out, '+', 1 + r.below(5));
+        } else {
+            out.push(',');
+        }
+        out.push_str("[-");
+        for _ in 0..1 + r.below(4) {
+            let a = r.below(nv as u64) as i32;
+            let b = (a + 1 + r.below(nv as u64 - 1) as i32) % nv;
+            let c = r.below(nv as u64) as i32;
+            match r.below(8) {
+                0 => {
+                    go(&mut out, &mut cur, a);
+                    let ch = if r.chance(3) { '-' } else { '+' };
+                    rep(&mut out, ch, 1 + r.below(3));
+                }
+                1 | 2 => add_preserving(&mut out, &mut cur, a, b, t0, r.chance(4)),
+                3 | 4 => {
+                    if a != b && a != c {
+                        mul_acc(&mut out, &mut cur, a, b, c, t0, t1, t3);
+                    }
+                }
+                5 | 6 => {
+                    // a *= k via temporary
+                    let k = 2 + r.below(3);
+                    go(&mut out, &mut cur, a);
+                    out.push_str("[-");
+                    go(&mut out, &mut cur, t2);
+                    rep(&mut out, '+', k);
+                    go(&mut out, &mut cur, a);
+                    out.push(']');
+                    go(&mut out, &mut cur, t2);
+                    out.push_str("[-");
+                    go(&mut out, &mut cur, a);
+                    out.push('+');
+                    go(&mut out, &mut cur, t2);
+                    out.push(']');
+                }
+                _ => {
+                    go(&mut out, &mut cur, a);
+                    out.push('.');
+                }
+            }
+        }
+        go(&mut out, &mut cur, cnt);
+        out.push(']');
+    }
+    for i in 0..nv {
+        go(&mut out, &mut cur, i);
+        out.push('.');
+    }
+    out
+}
+
 // ---------------------------------------------------------------- I
 /// Input requests in the middle of live computations: many values are pending
 /// (held in temporaries) when a ',' is executed.
@@ -895,6 +970,7 @@ pub fn main_gen(args: &[String]) {
             "T" => gen_roam(&mut r),
             "L" => gen_large(&mut r),
             "I" => gen_io(&mut r),
+            "G" => gen_closed(&mut r),
             "D" => gen_div(&mut r),
             "M" => {
                 let s = r.pick(&seeds).clone();
